@@ -657,15 +657,28 @@ class JobNameCalculator:
                 finalNames.setdefault(name, []).extend(jobs)
 
         # Create unique job names for all jobs by adding a counting number as
-        # last resort.
+        # last resort. The names must stay unique after they have been mangled
+        # to the internal job names and a numbered name must not clash with
+        # the name of another job.
+        def mangle(name):
+            return self.__regexJobName.sub('_', name).lower()
+        taken = set()
+        ambiguous = []
         for (name, jobs) in sorted(finalNames.items()):
-            if len(jobs) == 1:
+            if len(jobs) == 1 and mangle(name) not in taken:
+                taken.add(mangle(name))
                 for vid in jobs[0].pkgs:
                     self.__packageName[vid] = name
             else:
-                for i, j in zip(range(len(jobs)), jobs):
-                    for vid in j.pkgs:
-                        self.__packageName[vid] = "{}-{}".format(name, i+1)
+                ambiguous.append((name, jobs))
+        for (name, jobs) in ambiguous:
+            i = 0
+            for j in jobs:
+                i += 1
+                while mangle("{}-{}".format(name, i)) in taken: i += 1
+                taken.add(mangle("{}-{}".format(name, i)))
+                for vid in j.pkgs:
+                    self.__packageName[vid] = "{}-{}".format(name, i)
 
     def getJobDisplayName(self, step):
         if step.isPackageStep():
